@@ -12,8 +12,10 @@ META = {
 }
 
 THEOREMS = [
-    "Qentem.Props.C19.step_exact_partial",
+    "Qentem.Props.C19.step_exact",
     "Qentem.Props.C19.run_exact",
+    "Qentem.Props.C19.C19_native",
+    "Qentem.Props.C19.C19_full_of_div_helper",
     "Qentem.Props.C19.sequence_exact_native",
     "Qentem.Props.C19.sequence_exact_hand",
     "Qentem.Props.C19.mul_helper_exact",
@@ -21,19 +23,31 @@ THEOREMS = [
     "Qentem.BigInt.sub_spec",
     "Qentem.BigInt.multiply_spec",
     "Qentem.BigInt.divide_spec",
+    "Qentem.BigInt.shiftLeft_spec",
+    "Qentem.BigInt.shiftRight_spec",
     "Qentem.BigInt.mulOK_native",
     "Qentem.BigInt.mulOK_hand",
     "Qentem.BigInt.divOK_native",
     "Qentem.BigInt.assign_small_spec",
+    "Qentem.BigInt.assign_wide_spec",
+    "Qentem.BigInt.add_wide_spec",
+    "Qentem.BigInt.sub_wide_spec",
     "Qentem.BigInt.or_small_spec",
+    "Qentem.BigInt.or_wide_spec",
     "Qentem.BigInt.and_small_spec",
+    "Qentem.BigInt.and_wide_spec",
     "Qentem.BigInt.cmpWord_spec",
+    "Qentem.BigInt.isBig_spec",
+    "Qentem.BigInt.number_spec",
     "Qentem.BigInt.narrow_small_spec",
+    "Qentem.BigInt.narrow_wide_spec",
     "Qentem.BigInt.findLastBit_spec",
+    "Qentem.BigInt.findFirstBit_spec",
     "Qentem.BigInt.clear_spec",
 ]
 
-OPEN = ["Qentem.Props.C19.C19_full", "Qentem.Props.C19.div_helper_exact"]
+OPEN = ["Qentem.Props.C19.C19_full (follows from div_helper_exact: C19_full_of_div_helper)",
+        "Qentem.Props.C19.div_helper_exact (half-word divide exact for every half width)"]
 
 # (W, n) of the fixed instantiations compiled into harness/bigint_harness.cpp
 INST = [(8, 8), (8, 9), (8, 16), (8, 32), (8, 256),
